@@ -7,6 +7,40 @@ def run(ctx):
     classes, n_schema, gen = _codec.setup(ctx)
     per_class = 6 if ctx["tier"] == "quick" else 120
     cases = _codec.malformed(ctx, classes, n_schema, gen, per_class)
+    # forward-compatible messages (unknown tagged fields) damaged at the end: truncations and
+    # inflated size prefixes of the unknown entries
+    from . import _wire
+    import io
+    from kio.serial import entity_reader, entity_writer
+    from ..values import to_py
+    wire = _wire.wire_cases(ctx, classes, n_schema, gen, 1, p_send=0.3, p_unknown=1.0)
+    rr = gen.r
+    for c in wire[:: (2 if ctx["tier"] == "quick" else 1)]:
+        base = c["ref"]
+        if not base:
+            continue
+        variants = []
+        for k in range(max(0, len(base) - 6), len(base)):
+            variants.append((base[:k], f"truncate@{k}"))
+        b = bytearray(base)
+        for _ in range(3):
+            p = rr.randrange(max(0, len(b) - 8), len(b))
+            b2 = bytearray(base); b2[p] = rr.choice([0x7F, 0x20, 0x05, 0x02, 0xFF])
+            variants.append((bytes(b2), f"lenbias@{p}"))
+        for data, desc in variants:
+            dec = cc.impl_decode(classes[c["cls"]], data)
+            case = {"cls": c["cls"], "input": data, "dec": dec, "mutation": "fwdcompat-" + desc, "base": base}
+            ok, why = True, None
+            if dec[0] == "err":
+                if dec[1] not in _codec.PERMITTED:
+                    ok, why = False, f"forbidden outcome {dec[1]}"
+            else:
+                try:
+                    entity_writer(classes[c["cls"]])(io.BytesIO(), to_py(classes[c["cls"]], dec[1]))
+                except Exception as e:  # noqa
+                    ok, why = False, f"returned value cannot be re-encoded: {cc.err_name(e)}"
+            case["c10_ok"], case["why"] = ok, why
+            cases.append(case)
     failing, errors = cc.run_coq_cases(ctx["build"], "C10", cases, kind="dcase")
     viol = []
     prop_fail = [i for i, c in enumerate(cases) if not c["c10_ok"]]
